@@ -253,13 +253,16 @@ func dumpLocking(e *Env, watched []*lkVal) *lkDump {
 
 var lkMasks = map[string]string{
 	//        0 pw/st 1 hold 2 rew 3 sign 4 idx 5 rank 6 set 7 tok 8 slash 9 pool 10 uq 11 queue 12 class 13 ups 14 deq
-	"all": "111111111111111",
-	"C11": "010000001010101",
-	"C12": "001000000101101",
-	"C13": "100011110000110",
-	"C14": "110100001000110",
-	"C15": "100010000011101",
-	"C07": "111111111111111",
+	//                                   15 derived collections consistent (ranking, index, thresholds; set after end-block)
+	"all": "1111111111111111",
+	"C11": "0100000010101010",
+	"C12": "0010000001011010",
+	"C13": "1000111100001101",
+	"C14": "1101000010001100",
+	"C15": "1000100000111010",
+	"C07": "1111111111111111",
+	"C18": "1111111111111111",
+	"C19": "1111111111111110",
 }
 
 func maskCoq(m string) string {
@@ -851,6 +854,10 @@ func lockingHistory(r *Rng, st *Stats, mask, focus string, blocks int, ci int) (
 			if cls != 0 {
 				st.Violate("C13", "hooks-total", "end-block-fails", fmt.Sprintf("EndBlocker failed at height %d", height), recs)
 			} else {
+				if focus == "C18" {
+					initLockingPrefixes(e)
+					exportImportCheck(e, st, []string{"locking"}, recs)
+				}
 				// C13: CometBFT must accept the updates; accumulated set must equal the module's record
 				cu, err := cmttypes.PB2TM.ValidatorUpdates(ups)
 				if err == nil && len(cu) > 0 {
